@@ -100,6 +100,15 @@ def canon_attr(v):
     return ["other", repr(v)]
 
 
+def expected_file_name(path, engine):
+    """The statement's rule, written out independently of xyzpy: the given name, with the engine's extension
+    added when the name carries none of the known extensions."""
+    known = {"h5netcdf": ".h5", "netcdf4": ".nc", "joblib": ".dmp", "zarr": ".zarr"}
+    if any(ext in path for ext in known.values()):
+        return path
+    return path + known[engine]
+
+
 def one_case(c, tmp, i):
     import xyzpy
     rng = c.rng
@@ -145,7 +154,7 @@ def one_case(c, tmp, i):
     obs = {"files": files, "attrs_back": {k: canon_attr(v) for k, v in back.attrs.items()}}
     bad = []
     # the file name used
-    want_file = os.path.basename(xyzpy.manage.auto_add_extension(path, engine))
+    want_file = os.path.basename(expected_file_name(path, engine))
     if files != [want_file]:
         bad.append(("unexpected-files", f"directory holds {files}, expected only {want_file}"))
     # same dims / coords / variables / values
